@@ -18,6 +18,8 @@ pub struct Frag {
 	pub short: bool,
 	/// max delivery latency in virtual ms (0 = immediate)
 	pub latency_ms: u32,
+	/// bytes a direction buffers before writes block (0 = unbounded): back-pressure from a slow reader
+	pub cap: usize,
 }
 
 #[derive(Default)]
@@ -29,6 +31,7 @@ struct Dir {
 	reader_gone: bool,
 	reset: bool,
 	reader_waker: Option<Waker>,
+	writer_waker: Option<Waker>,
 	ready_at: Option<tokio::time::Instant>,
 	total: u64,
 }
@@ -72,6 +75,9 @@ impl Ctl {
 			d.reset = true;
 			d.buf.clear();
 			if let Some(w) = d.reader_waker.take() {
+				w.wake();
+			}
+			if let Some(w) = d.writer_waker.take() {
 				w.wake();
 			}
 		}
@@ -138,6 +144,9 @@ impl AsyncRead for End {
 			let b = d.buf.pop_front().unwrap();
 			out.put_slice(&[b]);
 		}
+		if let Some(w) = d.writer_waker.take() {
+			w.wake();
+		}
 		Poll::Ready(Ok(()))
 	}
 }
@@ -145,7 +154,7 @@ impl AsyncRead for End {
 use std::future::Future;
 
 impl AsyncWrite for End {
-	fn poll_write(self: Pin<&mut Self>, _cx: &mut Context<'_>, data: &[u8]) -> Poll<io::Result<usize>> {
+	fn poll_write(self: Pin<&mut Self>, cx: &mut Context<'_>, data: &[u8]) -> Poll<io::Result<usize>> {
 		let outgoing = self.side;
 		let mut s = self.shared.lock().unwrap();
 		let d = &mut s.dirs[outgoing];
@@ -158,6 +167,13 @@ impl AsyncWrite for End {
 		if data.is_empty() {
 			return Poll::Ready(Ok(0));
 		}
+		let room = if self.frag.cap == 0 { usize::MAX } else { self.frag.cap.saturating_sub(d.buf.len()) };
+		if room == 0 {
+			rt::probe("stream_backpressure");
+			d.writer_waker = Some(cx.waker().clone());
+			return Poll::Pending;
+		}
+		let data = &data[..data.len().min(room)];
 		let n = if self.frag.short && data.len() > 1 {
 			match rt::draw("short-write", 4) {
 				0 | 1 => data.len(),
@@ -210,5 +226,8 @@ impl Drop for End {
 			w.wake();
 		}
 		s.dirs[inc].reader_gone = true;
+		if let Some(w) = s.dirs[inc].writer_waker.take() {
+			w.wake();
+		}
 	}
 }
